@@ -1039,11 +1039,16 @@ void SPxMainSM<R>::DoubletonEquationPS::execute(VectorBase<R>& x, VectorBase<R>&
       {
          // with a zero reduced cost the bound x_j sits at decides; x_j was recomputed from the equation, so it equals
          // that bound only up to rounding: take the nearer bound (an infinite bound is never the nearer one)
-         if(GT(r[m_j], (R) 0, this->epsilon()) || (isZero(r[m_j], this->epsilon())
-               && (m_Up_j >= R(infinity) || (m_Lo_j > R(-infinity) && x[m_j] - m_Lo_j <= m_Up_j - x[m_j]))))
-            cStatus[m_j] = SPxSolverBase<R>::ON_LOWER;
-         else
-            cStatus[m_j] = SPxSolverBase<R>::ON_UPPER;
+         bool atLower = GT(r[m_j], (R) 0, this->epsilon()) || (isZero(r[m_j], this->epsilon())
+                        && (m_Up_j >= R(infinity) || (m_Lo_j > R(-infinity) && x[m_j] - m_Lo_j <= m_Up_j - x[m_j])));
+
+         // the sign of a reduced cost at rounding level (1e-16) must not put the variable on an infinite bound
+         if(atLower && m_Lo_j <= R(-infinity) && m_Up_j < R(infinity))
+            atLower = false;
+         else if(!atLower && m_Up_j >= R(infinity) && m_Lo_j > R(-infinity))
+            atLower = true;
+
+         cStatus[m_j] = atLower ? SPxSolverBase<R>::ON_LOWER : SPxSolverBase<R>::ON_UPPER;
       }
 
       cStatus[m_k] = SPxSolverBase<R>::BASIC;
